@@ -825,6 +825,13 @@ class Exec:
                         targets.append((int(k.strip()), dst.strip()))
                 if isinstance(v, BoolV):
                     v = IntV("(ite %s 1 0)" % v.term, "u8", None if v.const is None else int(v.const))
+                if isinstance(v, OpaqueV) and getattr(self, "havoc_unknown", False):
+                    # an opaque scalar (element of an opaque collection, result of an arbitrary call): one
+                    # arbitrary integer per identity, so that repeated tests of the same value agree
+                    memo = self.__dict__.setdefault("_opaque_ints", {})
+                    if v.what not in memo:
+                        memo[v.what] = self.ctx.fresh_int("opaque_scalar", "u8")
+                    v = memo[v.what]
                 if v.const is not None:
                     nxt = other
                     for k, dst in targets:
@@ -839,11 +846,16 @@ class Exec:
                 if self.paths > self.max_paths:
                     raise EncodingError("too many paths in %s" % fn.name)
                 saved = copy.deepcopy(self.heap)
+                # syntactic pruning: a branch whose literal contradicts one already on the path is infeasible
+                pcs = set(pc)
+                eqs = [k for k, _d in targets if "(= %s %s)" % (v.term, lit(k)) in pcs]
                 for k, dst in targets:
+                    if "(not (= %s %s))" % (v.term, lit(k)) in pcs or (eqs and k not in eqs):
+                        continue
                     self.heap = copy.deepcopy(saved)
                     self._walk(fn, dst, dict(env), pc + ["(= %s %s)" % (v.term, lit(k))], list(events), out, depth,
                                trace)
-                if other is not None:
+                if other is not None and not eqs:
                     conds = ["(not (= %s %s))" % (v.term, lit(k)) for k, _d in targets]
                     self.heap = copy.deepcopy(saved)
                     self._walk(fn, other, dict(env), pc + conds, list(events), out, depth, trace)
